@@ -106,3 +106,95 @@ M("C04", "shift-all-names-sub", P, "shift += int(by) if by else 0", "shift -= in
 M("C04", "token-print-sign", "incidences/main.py", '_PRINT_TOKEN = "x[({qid},t{shift:+g})]"', '_PRINT_TOKEN = "x[({qid},t-{shift:g})]"', "C04-R5")
 T("C04", "twin-pct-rewritten", P, '"100*(" + code + ")/(" + _shift_all_names(code, shift) + ")-100"', '"100*((" + code + ")/(" + _shift_all_names(code, shift) + ")-1)"')
 T("C04", "twin-postprocess", "equations.py", 'equation = "-(" + lhs_rhs[0] + ")+" + lhs_rhs[1]', 'equation = "(" + lhs_rhs[1] + ")-(" + lhs_rhs[0] + ")"')
+
+# ------------------------------------------------------------------------------------------------ C09
+DT = "dates.py"
+M("C09", "lt-becomes-le", DT, "        _check_periods(self, other, )\n        return self.serial < other.serial", "        _check_periods(self, other, )\n        return self.serial <= other.serial", "C09-R1")
+M("C09", "eq-guard-dropped", DT, "        _check_periods(self, other, )\n        return self.serial == other.serial", "        return self.serial == other.serial", "C09-R1")
+M("C09", "ge-becomes-gt", DT, "return self.serial >= other.serial", "return self.serial > other.serial", "C09-R1")
+M("C09", "hash-drops-serial", DT, "return hash((int(self.serial), hash(self.frequency), ))", "return hash((hash(self.frequency), ))", "C09-R1")
+M("C09", "guard-compares-names", DT, "if str(type(first)) == str(type(second)):", "if str(type(first)) != str(type(second)):", "C09-R1")
+M("C09", "add-off-by-one", DT, "return type(self)(self.serial + int(other))", "return type(self)(self.serial + int(other) + 1)", "C09-R2")
+M("C09", "sub-reversed", DT, "        return self.serial - other.serial", "        return other.serial - self.serial", "C09-R2")
+M("C09", "sub-int-sign", DT, "return self.__add__(-int(other))", "return self.__add__(int(other))", "C09-R2")
+M("C09", "ysf-no-minus-one", DT, "return int(year)*int(freq) + int(per) - 1", "return int(year)*int(freq) + int(per)", "C09-R3")
+M("C09", "to-ys-no-plus-one", DT, "return self.serial//self.frequency.value, self.serial%self.frequency.value+1", "return self.serial//self.frequency.value, self.serial%self.frequency.value", "C09-R3")
+M("C09", "soy-segment", DT, "return self.from_year_segment(year, 1)", "return self.from_year_segment(year, 0)", "C09-R3")
+M("C09", "eopy-year", DT, "return self.from_year_segment(year-1, self.frequency.value)", "return self.from_year_segment(year, self.frequency.value)", "C09-R3")
+M("C09", "yoy-direction", DT, "                return self - self.frequency.value", "                return self + self.frequency.value", "C09-R3")
+M("C09", "q3-end-table", DT, '"end": {1: (3, 31), 2: (6, 30), 3: (9, 30), 4: (12, 31)},', '"end": {1: (3, 31), 2: (6, 30), 3: (9, 31), 4: (12, 31)},', "C09-R4")
+M("C09", "h2-start-table", DT, '"start": {1: (1, 1), 2: (7, 1)},', '"start": {1: (1, 1), 2: (6, 1)},', "C09-R4")
+M("C09", "quarter-month-map", DT, "return 1+((month-1)//3)", "return 1+(month//3)", "C09-R4")
+M("C09", "daily-int-date", DT, "boy_serial = _dt.date(_dt.date.fromordinal(self.serial).year, 1, 1).toordinal()", "boy_serial = _dt.date(_dt.date.fromordinal(self.serial).year, 1, 1)", "C09-R5")
+M("C09", "daily-segment-offset", DT, "        per = self.serial - boy_serial + 1", "        per = self.serial - boy_serial", "C09-R5")
+M("C09", "serials-drop-end", DT, "return range(self._start.serial, self._end.serial+_sign(self._step), self._step) if not self.needs_resolve else None", "return range(self._start.serial, self._end.serial, self._step) if not self.needs_resolve else None", "C09-R6")
+M("C09", "from-until-plus-one", DT, "serials = range(start_per.serial, end_per.serial + _sign(step), step, )", "serials = range(start_per.serial, end_per.serial + 1, step, )", "C09-R6")
+M("C09", "reverse-keeps-step", DT, "        self._step = -self._step\n", "        pass\n", "C09-R6")
+M("C09", "undefined-name", DT, "raise _wrongdoings.IrisPieCritical(\"Cannot convert period to daily period.\")", "raise IrisPieCritical(\"Cannot convert period to daily period.\")", "C09-R7")
+T("C09", "twin-lt-mirrored", DT, "        _check_periods(self, other, )\n        return self.serial < other.serial", "        _check_periods(other, self, )\n        return other.serial > self.serial")
+T("C09", "twin-ysf-reordered", DT, "return int(year)*int(freq) + int(per) - 1", "return int(per) - 1 + int(freq)*int(year)")
+T("C09", "twin-quarter-map", DT, "return 1+((month-1)//3)", "return (month+2)//3")
+T("C09", "twin-serials", DT, "return range(self._start.serial, self._end.serial+_sign(self._step), self._step) if not self.needs_resolve else None", "return range(self._start.serial, _sign(self._step)+self._end.serial, self._step) if not self.needs_resolve else None")
+
+# ------------------------------------------------------------------------------------------------ C11
+M("C11", "monthly-width", DT, 'return f"{year:04g}-{per:02g}"', 'return f"{year:04g}-{per:1g}"', "C11-R1") if False else None
+M("C11", "quarterly-letter-case", DT, r'Frequency.QUARTERLY: (7, _re.compile(r"\d\d\d\d-Q\d", ), ),', r'Frequency.QUARTERLY: (7, _re.compile(r"\d\d\d\d-q\d", ), ),', "C11-R1")
+M("C11", "quarterly-length", DT, r'Frequency.QUARTERLY: (7, _re.compile(r"\d\d\d\d-Q\d", ), ),', r'Frequency.QUARTERLY: (8, _re.compile(r"\d\d\d\d-Q\d", ), ),', "C11-R1")
+M("C11", "ambiguous-monthly", DT, r'Frequency.MONTHLY: (7, _re.compile(r"\d\d\d\d-\d\d", ), ),', r'Frequency.MONTHLY: (7, _re.compile(r"\d\d\d\d-\w\d", ), ),', "C11-R1")
+M("C11", "integer-stray-comma", DT, r'Frequency.INTEGER: (None, _re.compile(r"\([\-\+]?\d+\)", ), ),', r'Frequency.INTEGER: (None, _re.compile(r"\([\-\+]?\d+\),", ), ),', "C11-R1")
+M("C11", "halfyear-split", DT, 'year, halfyear = sdmx_string.strip().split("-H")', 'year, halfyear = sdmx_string.strip().split("H")', "C11-R2")
+M("C11", "quarter-fields-swapped", DT, "        year, quarter = sdmx_string.strip().split(\"-Q\")\n        return klass.from_year_segment(int(year), int(quarter))", "        year, quarter = sdmx_string.strip().split(\"-Q\")\n        return klass.from_year_segment(int(quarter), int(year))", "C11-R2")
+M("C11", "repr-ctor", DT, 'def __repr__(self) -> str: return f"qq{self.to_year_segment()}"', 'def __repr__(self) -> str: return f"hh{self.to_year_segment()}"', "C11-R2")
+M("C11", "refrequent-args", DT, "        return new_class.from_ymd(year, month, day, )", "        return new_class.from_ymd(year, day, month, )", "C11-R3")
+M("C11", "quarter-month-map", DT, "return 1+((month-1)//3)", "return 1+(month//3)", "C11-R3")
+M("C11", "q-middle-table", DT, '"middle": {1: (2, 15), 2: (5, 15), 3: (8, 15), 4: (11, 15)},', '"middle": {1: (2, 15), 2: (5, 15), 3: (10, 15), 4: (11, 15)},', "C11-R3")
+M("C11", "dispatch-table", DT, "    Frequency.QUARTERLY: QuarterlyPeriod,", "    Frequency.QUARTERLY: HalfyearlyPeriod,", "C11-R4")
+T("C11", "twin-pattern-quantifier", DT, r'Frequency.QUARTERLY: (7, _re.compile(r"\d\d\d\d-Q\d", ), ),', r'Frequency.QUARTERLY: (7, _re.compile(r"\d{4}-Q[0-9]", ), ),')
+T("C11", "twin-daily-pattern", DT, r'Frequency.MONTHLY: (7, _re.compile(r"\d\d\d\d-\d\d", ), ),', r'Frequency.MONTHLY: (7, _re.compile(r"[0-9]{4}-[0-9]{2}", ), ),')
+
+# ------------------------------------------------------------------------------------------------ C10
+S = "series/main.py"
+M("C10", "set-data-no-trim", S, "            self.data[pos, c] = d\n        self.trim()\n", "            self.data[pos, c] = d\n", "C10-R1")
+M("C10", "replace-data-no-trim", S, "        self.data = new_values\n        self.trim()\n", "        self.data = new_values\n", "C10-R1")
+M("C10", "replace-where-no-trim", S, "        self.data[test(self.data)] = new_value\n        self.trim()\n", "        self.data[test(self.data)] = new_value\n", "C10-R1")
+M("C10", "apply-no-trim", S, "            new.data = new_data.reshape(self.data.shape[0], 1, )\n            new.trim()\n", "            new.data = new_data.reshape(self.data.shape[0], 1, )\n", "C10-R1")
+M("C10", "wrapper-on-original", "series/_functionalize.py", "    out = new.{n}(*args, **kwargs, )", "    out = self.{n}(*args, **kwargs, )", "C10-R2")
+M("C10", "wrapper-no-copy", "series/_functionalize.py", "    new = self.copy()", "    new = self", "C10-R2")
+M("C10", "elementwise-on-original", "series/_elementwise.py", "            new.{k}(*args, **kwargs, )", "            object.{k}(*args, **kwargs, )", "C10-R2")
+M("C10", "shallow-copy", "conveniences/copies.py", "        return _cp.deepcopy(self)", "        return _cp.copy(self)", "C10-R2")
+M("C10", "broadcast-argument", S, "        other = other.copy()\n        other._broadcast_variants(self.num_variants, )", "        other._broadcast_variants(self.num_variants, )", "C10-R3")
+M("C10", "binop-different-spans", S, "        other_data = other.get_data_from_until(from_until, )", "        other_data = other.get_data_from_until(other.from_until, )", "C10-R4")
+M("C10", "binop-start", S, "        new._replace_start_and_values(from_until[0], new_data, )", "        new._replace_start_and_values(from_until[1], new_data, )", "C10-R4")
+M("C10", "add-after-off-by-one", S, "    add_after = max(max_pos - num_periods + 1, 0)", "    add_after = max(max_pos - num_periods, 0)", "C10-R5")
+M("C10", "add-before-sign", S, "    add_before = max(-min_pos, 0)", "    add_before = max(min_pos, 0)", "C10-R5")
+M("C10", "shift-direction", S, "        self.start -= by\n", "        self.start += by\n", "C10-R5")
+M("C10", "interp-scale", "series/_filling.py", "    scale_diff = (curr_index - previous_index) / (next_index - previous_index)", "    scale_diff = (curr_index - previous_index) / (next_index - curr_index)", "C10-R6")
+M("C10", "moving-pad", "series/_moving.py", "            pad_width=((window_length-1, 0), (0, 0)),", "            pad_width=((window_length, 0), (0, 0)),", "C10-R6")
+M("C10", "undefined-name", S, "        if old_date is None:", "        if old_data is None:", "C10-R7")
+T("C10", "twin-add-before-commuted", S, "    add_before = max(-min_pos, 0)", "    add_before = max(0, -min_pos)")
+T("C10", "twin-trim-via-replace", S, "        self.data[test(self.data)] = new_value\n        self.trim()\n", "        new_values = self.data\n        new_values[test(new_values)] = new_value\n        self._replace_data(new_values)\n")
+T("C10", "twin-interp-rewritten", "series/_filling.py", "    return previous_value + diff * scale_diff", "    return diff * scale_diff + previous_value")
+
+# ------------------------------------------------------------------------------------------------ C12
+CV = "series/_conversions.py"
+M("C12", "window-not-year-aligned", CV, "    start_year = self.start_date.get_year()\n    start_date = self.start_date.create_soy()\n    end_date = self.end_date.create_eoy()", "    start_year = self.start_date.get_year()\n    start_date = self.start_date\n    end_date = self.end_date.create_eoy()", "C12-R1")
+M("C12", "factor-inverted", CV, "    factor = self.frequency.value // target_freq", "    factor = target_freq // self.frequency.value", "C12-R1")
+M("C12", "daily-slice-end", CV, 't.to_daily(position="end", ) - start_date + 1,', 't.to_daily(position="end", ) - start_date,', "C12-R2")
+M("C12", "first-last-swapped", CV, '    "first": _op.itemgetter(0),', '    "first": _op.itemgetter(-1),', "C12-R3")
+M("C12", "mean-ignores-nan", CV, '    "mean": _st.mean,', '    "mean": _np.nanmean,', "C12-R3")
+M("C12", "discard-always", CV, "    if discard_missing:\n        within_data = within_data[~_np.isnan(within_data)]", "    if True:\n        within_data = within_data[~_np.isnan(within_data)]", "C12-R3")
+M("C12", "last-offset", CV, "    high_data[factor-1::factor, :] = flat_high_data[factor-1::factor, :]", "    high_data[factor::factor, :] = flat_high_data[factor::factor, :]", "C12-R4")
+M("C12", "middle-sides-differ", CV, "    high_data[factor//2::factor, :] = flat_high_data[factor//2::factor, :]", "    high_data[factor//2::factor, :] = flat_high_data[::factor, :]", "C12-R4")
+M("C12", "aggregate-guard-direction", CV, "        if target_freq > self.frequency or target_freq is _dates.Frequency.UNKNOWN", "        if target_freq < self.frequency or target_freq is _dates.Frequency.UNKNOWN", "C12-R5")
+T("C12", "twin-slice-reordered", CV, 't.to_daily(position="end", ) - start_date + 1,', '1 + t.to_daily(position="end", ) - start_date,')
+
+# ------------------------------------------------------------------------------------------------ C14
+H = "series/_hp.py"
+M("C14", "gap-sign", H, "        gap_data = extended_data - trend_data", "        gap_data = trend_data - extended_data", "C14-R1")
+M("C14", "log-exp-one-side", H, "            trend_data = _np.exp(trend_data, )\n            gap_data = _np.exp(gap_data, )", "            trend_data = _np.exp(trend_data, )", "C14-R1")
+M("C14", "truncate-one-side", H, "            trend_data = trend_data[:-self._num_extra_rows, :]\n            gap_data = gap_data[:-self._num_extra_rows, :]", "            trend_data = trend_data[:-self._num_extra_rows, :]", "C14-R1")
+M("C14", "lonf-trend", "series/_ell_one.py", "    trend_data = data - gap_data", "    trend_data = data + gap_data", "C14-R1")
+M("C14", "clip-differs", H, "        gap_data = gap_data[clip_start:clip_end, ...]", "        gap_data = gap_data[clip_start:clip_end+1, ...]", "C14-R2")
+M("C14", "clip-end", H, "        clip_end = new_end_date - from_until[0] + 1", "        clip_end = new_end_date - from_until[0]", "C14-R2")
+M("C14", "hpf-swapped", H, "    trend = type(self)(start_date=start_date, values=trend_data, )\n    gap = type(self)(start_date=start_date, values=gap_data, )", "    trend = type(self)(start_date=start_date, values=gap_data, )\n    gap = type(self)(start_date=start_date, values=trend_data, )", "C14-R2")
+T("C14", "twin-gap-rewritten", H, "        gap_data = extended_data - trend_data", "        gap_data = -trend_data + extended_data")
